@@ -238,6 +238,8 @@ def run(ctx):
             okall = U(fl.iter) == "range(self.ndim)" and any("axis=" + U(fl.target) in t and "inplace=True" in t for t in sts)
     ctx.check(okcopy, "C10.d", "merge_bins:on-a-copy", "histogram = self.copy(); histogram.merge_bins(..., inplace=True); return histogram",
               "the non-in-place branch does not merge a copy with the caller's arguments", mb.where)
+    from rules import c12
+    c12.check_copy_contents(ctx, "C10.d", m)   # the copy that is merged carries all contents, incl. the missed store
     ctx.check(okall, "C10.d", "merge_bins:all-axes", "axis=None merges every axis in range(self.ndim)", "axis=None does not cover all axes", mb.where)
 
     ctx.rule("C10.e", "bin maps that are generators are consumed once: apply_bin_map (two passes) only ever receives lists", 1)
